@@ -1,0 +1,15 @@
+//go:build verif
+
+// Contracts for the govc verifier (see /verif/DESIGN.md). Comment-only file: with the
+// "verif" build tag off it is not compiled; with it on it contains only the package clause.
+
+package cacheutil
+
+//@ func (c *LRUCache) Add
+//@   props C10
+//@   requires c.cache != nil
+//@   ensures[C10] done != nil
+//@ func (c *LRUCache) Get
+//@   props C10
+//@   requires c.cache != nil
+//@   ensures[C10] ok ==> done != nil
